@@ -226,11 +226,11 @@ void h_dom_lemmas(void)
 
 def jobs(tier):
     out = [Job(unit='specificity', config='dom-lemmas', c_text=LEMMAS, entry='h_dom_lemmas',
-               kind='proof', min_obligations=2, min_cover=2, props=['C01', 'C03', 'C06'],
+               kind='proof', min_obligations=2, min_cover=2, props=['C01', 'C02', 'C03', 'C06'],
                note='lemma over the postcondition of is_more_specific (no repository code)')]
     for fn, contract, ghost, loop, props, assume in (
             ('is_more_specific', IMS_CONTRACT, IMS_GHOST, IMS_LOOP,
-             ['C01', 'C03', 'C06', 'C16'],
+             ['C01', 'C02', 'C03', 'C06', 'C16'],
              ['antisymmetry of the inheritance relation at the compared positions (acyclic class graph) is a precondition of is_more_specific']),
             ('is_base', ISB_CONTRACT, ISB_GHOST, ISB_LOOP, ['C03', 'C06'], [])):
         ex, c = make(fn, contract, ghost, loop)
